@@ -168,6 +168,51 @@ func c06QuarantineOps(log []string) []int {
 	return nil
 }
 
+// c06LoneKeyBases: key reuse with the site's .key in storage but no complete bundle (what an interrupted save
+// leaves: the Store of the .crt and the roll-back Delete of the .key both failed), then an obtain swept over
+// every call index: the Load of that .key failing with an I/O error (not "does not exist") must abort the
+// obtain - the stored key is kept, never silently replaced by a new one.
+func c06LoneKeyBases() (bases []c06In, target []int) {
+	dns := c06Subjects[0]
+	for _, n := range []int{1, 2} {
+		cfg := c06Cfg{N: n, Reuse: true, KeyType: "p256"}
+		first := c06Orc(c06Up(10, 0))
+		all := c06Orc(c06Up(20, 0))
+		if n == 2 {
+			first = c06Orc(c06Down, c06Up(10, 0)) // the lone key ends up in the second issuer's directory
+			all = c06Orc(c06Up(20, 0), c06Up(20, 0))
+		}
+		// where is the Store of the .crt in a plain obtain?
+		r0 := c06Exec(c06In{Cfg: cfg, Subj: dns, Steps: []c06Hop{{Op: "obtain", Orc: first}}}, "lone-key-probe")
+		p, k := -1, 0
+		if len(r0.logs) == 1 {
+			for _, l := range r0.logs[0] {
+				if strings.HasPrefix(l, "Issue") || strings.HasPrefix(l, "GenKey") {
+					continue
+				}
+				if strings.HasPrefix(l, "Store file(") && strings.Contains(l, ",crt)") {
+					p = k
+				}
+				k++
+			}
+		}
+		if p < 0 {
+			continue
+		}
+		bases = append(bases, c06In{Cfg: cfg, Subj: dns, Steps: []c06Hop{
+			{Op: "obtain", Orc: first, Fails: []int{p, p + 1}},
+			{Op: "obtain", Orc: all},
+			{Op: "manage", Orc: all}}})
+		target = append(target, 1)
+		bases = append(bases, c06In{Cfg: cfg, Subj: dns, Steps: []c06Hop{
+			{Op: "obtain", Orc: first, Fails: []int{p, p + 1}},
+			{Op: "manage", Orc: all},
+			{Op: "manage", Orc: all}}})
+		target = append(target, 1)
+	}
+	return bases, target
+}
+
 func c06SweepBases() (bases []c06In, target []int) {
 	dns := c06Subjects[0]
 	m := func(o ...c06Outcome) c06Hop { return c06Hop{Op: "manage", Orc: c06Orc(o...)} }
@@ -582,6 +627,8 @@ func c06Run(tier string, seed int64, outdir string, replay string) error {
 	}
 	// storage-error sweep: learn the number of Storage calls of the marked step, then fail each in turn
 	bases, target := c06SweepBases()
+	lb, lt := c06LoneKeyBases()
+	bases, target = append(bases, lb...), append(target, lt...)
 	for bi, b := range bases {
 		L := 0
 		if r0 := c06Exec(b, "sweep-base"); len(r0.ops) > target[bi] {
@@ -624,7 +671,7 @@ func c06Run(tier string, seed int64, outdir string, replay string) error {
 	}
 	n := 700
 	if tier == "thorough" {
-		n = 12000
+		n = 5000 // also the size of the targeted search after a broken proof / correspondence: keep it near a minute
 	}
 	r := rand.New(rand.NewSource(seed))
 	for i := 0; i < n; i++ {
